@@ -283,10 +283,35 @@ func (s *skel) word(w ast.Word) {
 	s.w(">")
 }
 
-// arith renders the expression of (( )) / $(( )): the lexer splits it at
-// blanks into adjacent parts, so only the concatenation is canonical.
+// arith renders the expression of (( )) / $(( )). The lexer splits it at
+// blanks into parts; whether two consecutive parts were separated by layout
+// is part of the expression ("1 - -x" is not "1 --x"), so under sepEq
+// adjacent literals are merged only when nothing separates them in the source.
 func (s *skel) arith(w ast.Word) {
-	s.word(w)
+	if !s.sepEq {
+		s.word(w)
+		return
+	}
+	s.w("<")
+	for i, p := range w {
+		l, isLit := p.(*ast.Lit)
+		if i > 0 {
+			_, prevLit := w[i-1].(*ast.Lit)
+			e, b := w[i-1].End(), p.Pos()
+			gap := e.Line() != b.Line() || e.Col() != b.Col()
+			if isLit && prevLit && !gap {
+				s.w(l.Value)
+				continue
+			}
+			if gap {
+				s.w(" _ ")
+			} else {
+				s.w(" ")
+			}
+		}
+		s.part(p)
+	}
+	s.w(">")
 }
 
 func (s *skel) part(p ast.WordPart) {
